@@ -121,9 +121,17 @@ def k1(prog, ctx):
                   if isinstance(st, ast.Assign) and isinstance(st.targets[0], ast.Subscript)
                   and src(st.targets[0].value) == src(D) and src(st.targets[0].slice) == src(K)]
         key_roots = dependency_roots(f, [K])
+        # the key may be a projection (obj.id, obj[0]) of a local object: whatever that object is computed from is covered by the key as well
+        kb = K
+        while isinstance(kb, (ast.Attribute, ast.Subscript)):
+            kb = kb.value
+        if isinstance(kb, ast.Name) and kb is not K:
+            key_roots = set(key_roots) | dependency_roots(f, [kb], at=store)
         dep = set()
         for st in stores:
             dep |= dependency_roots(f, [st.value])
+            if len(stores) < 2:
+                continue           # one store: the guards decide WHETHER the value is remembered, not WHAT is remembered
             for g in flow.guards_of(st, stop=f):
                 if g.test is gif.test:
                     continue
